@@ -367,21 +367,39 @@ impl ASN1Type {
         &mut self,
         tlds: &BTreeMap<String, ToplevelDefinition>,
     ) -> bool {
+        self.link_components_of(tlds, &mut Vec::new())
+    }
+
+    fn link_components_of(
+        &mut self,
+        tlds: &BTreeMap<String, ToplevelDefinition>,
+        visiting: &mut Vec<String>,
+    ) -> bool {
         match self {
             ASN1Type::Choice(c) => c
                 .options
                 .iter_mut()
-                .any(|o| o.ty.link_components_of_notation(tlds)),
+                .any(|o| o.ty.link_components_of(tlds, visiting)),
             ASN1Type::Set(s) | ASN1Type::Sequence(s) => {
                 let mut member_linking = s
                     .members
                     .iter_mut()
-                    .any(|m| m.ty.link_components_of_notation(tlds));
+                    .any(|m| m.ty.link_components_of(tlds, visiting));
                 // TODO: properly link components of in extensions
                 // TODO: link components of Class field, such as COMPONENTS OF BILATERAL.&id
-                for comp_link in &s.components_of {
+                // Taking the references out marks this type as expanded
+                for comp_link in &std::mem::take(&mut s.components_of) {
+                    if visiting.contains(comp_link) {
+                        continue;
+                    }
                     if let Some(ToplevelDefinition::Type(linked)) = tlds.get(comp_link) {
-                        if let ASN1Type::Sequence(linked_seq) = &linked.ty {
+                        // The referenced type may still wait for its own COMPONENTS OF
+                        // to be expanded (when it is linked after this one)
+                        let mut linked_ty = linked.ty.clone();
+                        visiting.push(comp_link.clone());
+                        linked_ty.link_components_of(tlds, visiting);
+                        visiting.pop();
+                        if let ASN1Type::Sequence(linked_seq) = &linked_ty {
                             linked_seq
                                 .members
                                 .iter()
@@ -400,7 +418,7 @@ impl ASN1Type {
                 }
                 member_linking
             }
-            ASN1Type::SequenceOf(so) => so.element_type.link_components_of_notation(tlds),
+            ASN1Type::SequenceOf(so) => so.element_type.link_components_of(tlds, visiting),
             _ => false,
         }
     }
